@@ -59,4 +59,12 @@ PROPS = {
         need_events=["answers_checked"],
         assumptions=TRUST,
     ),
+    "C04": dict(
+        level="exploration",
+        rule="message bodies assembled from raw (code, flags, vendor, declared length, payload) records under the generated and the default dictionary: fixed-width types with payloads of every length 0..20, Address payloads of every family class x length 0..20, string types and unknown codes whose payloads are runs of valid AVP images, grouped codes nested to depth 5, and one injected inconsistent length in a third of the cases (declared < 8, V flag with declared < 12, declared beyond / short of the actual bytes, 0xFFFFFF, length counting the padding). The reference framer walks the same bytes by declared length rounded up to 4, recursing where the dictionary says Grouped; the library's AVP list (count, order, code, flags, vendor, Length, payload where observable) must equal it, and mis-framed bodies must be rejected. distinct_nontrivial counts distinct (dictionary, record type, payload length / family class, depth) and (injection kind, outcome) classes.",
+        runs=dict(quick=[plain("TestC04", 8), race("TestC04", 2)], thorough=[plain("TestC04", 16, 3000), race("TestC04", 4, 3000)]),
+        floor=dict(quick=50000, thorough=1000000),
+        need_events=["wellframed_accepted_equal", "ref_misframed", "groups_direct"],
+        assumptions=TRUST + ["a well-framed body may be rejected only for an Address payload that is invalid (shorter than 3 bytes, family 0/65535, IPv4/IPv6 family with the wrong size); a missing padding after the final AVP is a don't-care"],
+    ),
 }
